@@ -153,4 +153,3 @@ func LastPool() any {
 	}
 	return pools[len(pools)-1]
 }
-
